@@ -122,6 +122,13 @@ def tasks(tier, seed, selftest=False):
                 S.append(dict(family="D3", skeleton=(qy, ch), timebox=200))
                 S.append(dict(family="D3", skeleton=("succ", qy, ch), timebox=200))
                 S.append(dict(family="U2", skeleton=(qy, ch, "everyseeds"), timebox=300))
+    # reclamation / serialisation between the query and the operation that gives the node successors
+    for qy in QUERIES:
+        for mid in ("reclaim", "pickle"):
+            for ch in ("succ", "bfs", "skip", "skiprem", "min", "aseeds", "scc", "block"):
+                S.append(dict(family="U2", skeleton=(qy, mid, ch), timebox=6 if q else 600))
+                if not q:
+                    S.append(dict(family="D3", skeleton=(qy, mid, ch), timebox=120))
     if q:
         for ch in ("skip", "skiprem", "min", "block", "scc", "succ"):
             S.append(dict(family="D3", skeleton=("seeds", ch), timebox=8))
@@ -137,7 +144,7 @@ def tasks(tier, seed, selftest=False):
 def main(tier, seed, t0, selftest=False):
     results = common.run_tasks(tasks(tier, seed, selftest))
     return common.finish(PROP, tier, seed, "model_checking", results, t0, selftest=selftest, functions=FUNCTIONS,
-                         bounds={"history": "[succ] + query (seeds|cands on a symbolic node) + one of " + ",".join(CHANGERS) + " (all parameters symbolic); cache of every node checked after every call",
+                         bounds={"history": "[succ] + query (seeds|cands on a symbolic node) + [reclaim|pickle] + one of " + ",".join(CHANGERS) + " (all parameters symbolic); cache of every node checked after every call",
                                  "families": "U2 time-boxed per skeleton; D3/B21 samples (quick); D3, B22, CH4, S2C2 (thorough)",
                                  "sets": "attractor *sets* are opaque handles in coarse mode: their staleness is covered through the seeds they are computed from (C12 decides their content)"},
                          assumptions=["contract stubs of DESIGN.md §8 validated on every representative",
